@@ -27,6 +27,8 @@ import (
 	"github.com/ajitpratap0/GoSQLX/pkg/sql/tokenizer"
 	"pgregory.net/rapid"
 	"verif/gen/bytegen"
+	"verif/gen/famgen"
+	"verif/internal/costmeas"
 	"verif/gen/sqlgen"
 	"verif/internal/hx"
 )
@@ -396,6 +398,7 @@ var (
 func init() {
 	bytesCheck = hx.NewCheck("bytes_all_entry_points", oracleBytes)
 	tokCheck = hx.NewCheck("tokens_all_entry_points", oracleTok)
+	largeCheck = hx.NewCheck("large_inputs", oracleLarge)
 }
 
 func preview(b []byte) string {
@@ -423,6 +426,68 @@ func TestBytesAllEntryPoints(t *testing.T) {
 }
 
 var classOf = map[string]string{}
+
+// ---------------------------------------------------------------- inputs near the size limit
+
+type LargeCase struct {
+	Family string `json:"family"`
+	N      int    `json:"n"`
+}
+
+var largeCheck *hx.Check[LargeCase]
+
+const largeBudget = 15 * time.Minute
+
+func oracleLarge(c LargeCase) error {
+	if !hx.Leaf() {
+		return largeCheck.Contained(c, largeBudget+time.Minute)
+	}
+	in, err := costmeas.Render(c.Family, "", c.N)
+	if err != nil {
+		return fmt.Errorf("HARNESS: %v", err)
+	}
+	var st stats
+	perr, hung, at := run(largeBudget, func(cur *string) {
+		textEntryPoints(cur, []byte(in), "", false, &st)
+	})
+	if hung {
+		return fmt.Errorf("%s does not return within %v on family %s at %d bytes", at, largeBudget, c.Family, len(in))
+	}
+	if perr != nil {
+		return fmt.Errorf("family %s at %d bytes: %v", c.Family, len(in), perr)
+	}
+	return nil
+}
+
+func TestLargeInputs(t *testing.T) {
+	hx.Rule("large_inputs", "every input family of the C20 catalogue (grammar compositions and lexical families, incl. families of long lexemes that stay under the token limit) rendered at 1 MiB and at MaxInputSize-1, MaxInputSize, MaxInputSize+1 bytes (quick: 1 MiB for all, the limit sizes for six families), through all text entry points and tree consumers in a child process; oracle: every call returns (value or error), the child survives, the whole table finishes within 15 minutes; non-trivial = size >= 1 MiB; exhaustive over the catalogue")
+	hx.Exhaustive("large_inputs", true)
+	var fams []string
+	for _, c := range famgen.Compositions {
+		fams = append(fams, "comp:"+c.Name)
+	}
+	for _, f := range famgen.Lexical {
+		fams = append(fams, f.Name)
+	}
+	limitFams := map[string]bool{"huge_literal": true, "long_identifiers_list": true, "wide_statements": true, "comp:or_chain": true, "line_comments": true, "long_literals_list": true}
+	idx := 0
+	for _, f := range fams {
+		sizes := []int{1 << 20}
+		if hx.Tier() == "thorough" || limitFams[f] {
+			sizes = append(sizes, tokenizer.MaxInputSize-1, tokenizer.MaxInputSize, tokenizer.MaxInputSize+1)
+		}
+		for _, n := range sizes {
+			idx++
+			if idx%hx.Shards() != hx.Shard() {
+				continue
+			}
+			c := LargeCase{Family: f, N: n}
+			hx.Case("large_inputs", true, fmt.Sprint(c), "large_"+fmt.Sprint(n>>20)+"MiB")
+			hx.Sample("large_inputs", c)
+			largeCheck.One(t, c)
+		}
+	}
+}
 
 // ---------------------------------------------------------------- token inputs
 
